@@ -269,6 +269,13 @@ def run(tier):
     tasks = set()
     for g, fn, ks in vers:
         tasks.add((g, fn, ks))
+        # the day before a spec changes and 1 January of that year still belong to the previous spec
+        keys = sorted(x for x in RP.raw_group(g)["rounding"][fn] if isinstance(x, datetime.date))
+        k = datetime.date.fromisoformat(ks)
+        if k != keys[0]:
+            tasks.add((g, fn, (k - datetime.timedelta(days=1)).isoformat()))
+            if datetime.date(k.year, 1, 1) >= keys[0]:
+                tasks.add((g, fn, datetime.date(k.year, 1, 1).isoformat()))
     if thorough:
         for g in RP.groups():
             for fn, spec in RP.raw_group(g).get("rounding", {}).items():
